@@ -123,6 +123,8 @@ def trace_inputs(trace):
         if st.get('stepType') != 'assignment':
             continue
         lhs = st.get('lhs', '')
+        if st.get('hidden') or st.get('sourceLocation', {}).get('function') not in ('vh_int', 'vh_double'):
+            continue
         if lhs == 'vh_log_i':
             v = st.get('value', {})
             lines.append('i %s' % v.get('data', '0'))
@@ -160,7 +162,7 @@ def native_build(q, outdir, tag):
     for (rc, o, e, _), c in zip(rs, cmds):
         if rc != 0:
             return None, 'native compile failed: %s\n%s' % (' '.join(c[-3:]), e[-1500:])
-    rc, o, e, _ = sh(['gcc'] + fl + objs + ['-o', exe, '-lm', '-lpthread'], timeout=300)
+    rc, o, e, _ = sh(['gcc'] + fl + objs + ['-o', exe, '-lm', '-lpthread', '-Wl,--unresolved-symbols=ignore-all'], timeout=300)
     for ob in objs:
         if os.path.exists(ob):
             os.unlink(ob)
